@@ -268,7 +268,10 @@ class Session:
     def _make_probe_hook(self):
         log = self.hook_log
         U = self.U
-        newdict = (len(self.events) % 2) == 1          # decided by when the hook is first registered
+        style = len(self.events) % 3                   # decided by when the hook is first registered
+        newdict = style >= 1
+        drops = style == 2                             # a filter: returns a NEW dict that omits a word (added after seed C20h)
+        calls = [0]                                    # calls of this hook so far (the per-event log is cleared between events)
 
         def probe_hook(origin, target, params, state):
             tag = params.get("A")
@@ -282,6 +285,12 @@ class Session:
             # both styles the hook contract allows: update in place, or return a new dict
             if newdict:
                 params = dict(params)
+            calls[0] += 1
+            if drops and calls[0] % 2 == 0:
+                # every other move goes out without its feed word (a "dry run" / "keep the modal feed" filter): what the hook
+                # left out must be neither emitted nor remembered
+                log[-1]["dropped"] = any(k.upper() == "F" for k in params)
+                params = {k: v for k, v in params.items() if k.upper() != "F"}
             params.update(B=float(len(log)))
             log[-1]["pout"] = {p: qnum(params.get(p), U) for p in PARAM_LETTERS}
             return params
@@ -594,7 +603,8 @@ class Session:
             "hooks": [dict(h) for h in self.hook_log],
             "ph": self.probe_on,                      # after the call, by the recorder's own bookkeeping of add_hook / remove_hook
             "fault": fault,
-            "sh": sh_before,
+            # a hook that alters what was asked for was at work: the scale hook in force, or the filter hook dropped a word
+            "sh": sh_before or any(h.get("dropped") for h in self.hook_log),
             "eh": bool(self.ext_hook is not None and eh_before),
             "ehp": dict(self.ext_params),
             "gc": self.gcoder_state(),
